@@ -9,6 +9,10 @@ Two parts, both on the live ``posix.Registry`` / ``asset.Directory`` code (``vol
                exactly as the runner does it: ``asset.State(generation, nodes, tag=generation.tag.training.trigger())``,
                ``State.dump`` x n, ``State.commit``
       read     latest / explicit release and generation through ``asset.State.load``
+      prune    out-of-band: an operator removes the directory of the oldest or a middle generation of a release directly on
+               disk (posix root / the volatile registry's temporary directory); the model simply forgets that generation,
+               so later trainings must still be numbered highest-existing+1 (not count+1) and must leave the surviving
+               generations byte-identical
 
     is applied to a registry, every operation behaving like a new process (new registry objects, every process-level
     cache dropped: TAGS / STATES / ARTIFACTS and the lru caches of ``posix.Path``).  About a third of the histories end
@@ -43,7 +47,7 @@ Two parts, both on the live ``posix.Registry`` / ``asset.Directory`` code (``vol
       crash-earlier-content-changed                     a file that existed before is gone or differs
       crash-listing-neither-before-nor-after            anything else
 
-    Sizes: quick = 5 directed + 13 random histories (history part), all crash points of every publish / train of the
+    Sizes: quick = 6 directed + 13 random histories (history part), all crash points of every publish / train of the
     directed and the first 2 random ones; thorough = 160 random histories, crash part for the first 12, a new-process
     reader for the first 12.  The crash points of one operation are dealt to the shards in chunks (load balance); a
     history is cut short after its first history-part violation (model and registry have diverged).
@@ -71,9 +75,10 @@ EXHAUSTIVE = False  # histories are sampled; what IS exhaustive (all crash point
 RULE = (
     'histories: seeded random sequences of 6-25 operations (quick <= 14) over 2 projects x <= 3 accepted releases from {publish '
     'directory/zip package with a higher / equal (same or other PEP 440 spelling) / lower version, train latest/explicit release from '
-    'latest/explicit generation with 0-4 states of 0..20000 bytes, read latest/explicit}, each run against posix.Registry (fresh reader '
+    'latest/explicit generation with 0-4 states of 0..20000 bytes, read latest/explicit, prune (operator removes the oldest or a middle '
+    'generation directory on disk)}, each run against posix.Registry (fresh reader '
     'after every step) and volatile.Registry, a third of them ending with an operation that names a release by an equal version of '
-    'another normal form, plus five directed minimal histories; crash part: for every publish and every train (dumps + commit) of the '
+    'another normal form, plus six directed minimal histories; crash part: for every publish and every train (dumps + commit) of the '
     'directed and the first 2 (quick) / 12 (thorough) random posix histories ALL crash points 1..N (N counted by a dry run) are executed, each in a forked child on a '
     'copy of the registry. evaluations = history steps checked + crash points checked. distinct = distinct (registry kind, operation '
     'shape, model state shape) per step and distinct (operation shape, model state shape, crash event descriptor) per crash point; '
@@ -130,13 +135,14 @@ def floors(tier):
             'crash_points_checked': 700, 'crash_ops_publish_directory': 5, 'crash_ops_publish_zipfile': 5, 'crash_ops_train': 10,
             'dry_runs_checked': 25, 'publish_accepted_checked': 20, 'publish_rejected_checked': 8, 'rejected_tree_compared': 8,
             'train_checked': 30, 'read_checked': 5, 'crash_outcome_before': 300, 'earlier_files_compared': 1000,
+            'prune_checked': 2, 'train_on_pruned_listing_checked': 2,
         }
     return {
         'evaluations': 8000, 'history_steps_checked': 1500, 'volatile_steps_checked': 1500, 'views_compared': 1500,
         'crash_points_checked': 3500, 'crash_ops_publish_directory': 25, 'crash_ops_publish_zipfile': 20, 'crash_ops_train': 60,
         'dry_runs_checked': 150, 'publish_accepted_checked': 300, 'publish_rejected_checked': 150, 'rejected_tree_compared': 150,
         'train_checked': 500, 'read_checked': 150, 'crash_outcome_before': 1500, 'earlier_files_compared': 20000,
-        'reader_process_views_compared': 1000,
+        'reader_process_views_compared': 1000, 'prune_checked': 15, 'train_on_pruned_listing_checked': 15,
     }
 
 
@@ -152,7 +158,7 @@ def norm(text):
 
 
 class Model:
-    """{project: {normalised version: {'spelling', 'kind', 'manifest', 'files', 'gens': [gen...]}}} with
+    """{project: {normalised version: {'spelling', 'kind', 'manifest', 'files', 'gens': {number: gen}}}} with
     gen = {'tag': tag view | None, 'blobs': [sha...], 'lens': [...], 'sids': [str...] | None}."""
 
     def __init__(self, data=None):
@@ -180,15 +186,20 @@ class Model:
 
     def publish(self, project, version, kind, package, files):
         self.data.setdefault(project, {})[norm(version)] = {
-            'spelling': version, 'kind': kind, 'manifest': [project, norm(version), package, {}], 'files': files, 'gens': []}
+            'spelling': version, 'kind': kind, 'manifest': [project, norm(version), package, {}], 'files': files, 'gens': {}}
 
     def train(self, project, release, blobs, sids=None, tag=None):
         import hashlib
 
         gens = self.data[project][release]['gens']
-        gens.append({'tag': tag, 'blobs': [hashlib.sha256(b).hexdigest() for b in blobs], 'lens': [len(b) for b in blobs],
-                     'sids': sids})
-        return len(gens)
+        number = max(gens, default=0) + 1  # one above the highest EXISTING generation (there may be gaps after a prune)
+        gens[number] = {'tag': tag, 'blobs': [hashlib.sha256(b).hexdigest() for b in blobs], 'lens': [len(b) for b in blobs],
+                        'sids': sids}
+        return number
+
+    def prune(self, project, release, number):
+        """An operator removed the generation directory: the model simply forgets it."""
+        del self.data[project][release]['gens'][number]
 
     def view(self):
         """The same structure vlib.c05_view.view returns."""
@@ -200,8 +211,8 @@ class Model:
             for release in self.releases(project):
                 rel = rels[release]
                 rout = {'package': {'manifest': rel['manifest'], 'kind': rel['kind'], 'files': rel['files']}, 'generations': {},
-                        'latest': len(rel['gens']) or None}
-                for number, gen in enumerate(rel['gens'], start=1):
+                        'latest': max(rel['gens'], default=None)}
+                for number, gen in sorted(rel['gens'].items()):
                     sids = gen['sids'] or [f'#{i}' for i in range(len(gen['blobs']))]
                     rout['generations'][str(number)] = {
                         'tag': dict(gen['tag'] or {'training': True, 'ordinal': None, 'tuning': None, 'score': None}, states=sids),
@@ -214,7 +225,7 @@ class Model:
 
     def shape(self):
         """State shape for distinctness accounting: per project the ordered (kind, generation state counts) of its releases."""
-        return [[(rel['kind'], [len(g['blobs']) for g in rel['gens']]) for _, rel in sorted(self.data.get(p, {}).items(),
+        return [[(rel['kind'], [(n, len(g['blobs'])) for n, g in sorted(rel['gens'].items())]) for _, rel in sorted(self.data.get(p, {}).items(),
                                                                                              key=lambda kv: vkey(kv[0]))]
                 for p in PROJECTS]
 
@@ -313,9 +324,13 @@ def gen_history(rng, length):
             release = model.resolve(project, target)
             if target is not None and rng.random() < 0.5:
                 target = model.data[project][release]['spelling']
-            count = len(model.data[project][release]['gens'])
-            generation = rng.randint(1, count) if count and rng.random() < 0.4 else None
-            if roll < 0.85:
+            numbers = sorted(model.data[project][release]['gens'])
+            generation = rng.choice(numbers) if numbers and rng.random() < 0.4 else None
+            if roll >= 0.93 and len(numbers) >= 2:  # an operator prunes the oldest or a middle generation directly on disk
+                victim = numbers[0] if len(numbers) == 2 or rng.random() < 0.5 else rng.choice(numbers[1:-1])
+                ops.append({'op': 'prune', 'project': project, 'release': target, 'generation': victim})
+                model.prune(project, release, victim)
+            elif roll < 0.85:
                 states = [{'seed': rng.randrange(1 << 30), 'len': rng.choice(SIZES)} for _ in range(rng.randint(0, 4))]
                 ops.append({'op': 'train', 'project': project, 'release': target, 'generation': generation, 'states': states})
                 model.train(project, release, [b''] * len(states))
@@ -372,6 +387,16 @@ DIRECTED = [
     [{'op': 'publish', 'project': 'pb', 'version': '2.0.0', 'kind': 'zipfile', 'payload': 9, 'extra': 0, 'big': False},
      {'op': 'train', 'project': 'pb', 'release': '2.0.0', 'generation': None, 'states': [{'seed': 11, 'len': 1}]},
      {'op': 'read', 'project': 'pb', 'release': '2', 'generation': None}],
+    # an operator prunes the oldest, later a middle generation: trainings stay max+1 and never touch the survivors
+    [{'op': 'publish', 'project': 'pa', 'version': '1.0', 'kind': 'directory', 'payload': 10, 'extra': 0, 'big': False},
+     {'op': 'train', 'project': 'pa', 'release': None, 'generation': None, 'states': [{'seed': 12, 'len': 7}]},
+     {'op': 'train', 'project': 'pa', 'release': None, 'generation': None, 'states': [{'seed': 13, 'len': 64}, {'seed': 14, 'len': 0}]},
+     {'op': 'train', 'project': 'pa', 'release': None, 'generation': None, 'states': [{'seed': 15, 'len': 1}]},
+     {'op': 'prune', 'project': 'pa', 'release': None, 'generation': 1},
+     {'op': 'train', 'project': 'pa', 'release': None, 'generation': None, 'states': [{'seed': 16, 'len': 300}]},
+     {'op': 'prune', 'project': 'pa', 'release': None, 'generation': 3},
+     {'op': 'train', 'project': 'pa', 'release': '1.0', 'generation': 2, 'states': [{'seed': 17, 'len': 7}, {'seed': 18, 'len': 7}]},
+     {'op': 'read', 'project': 'pa', 'release': None, 'generation': None}],
 ]
 
 
@@ -383,6 +408,9 @@ def advance(model, op, files, result):
             return 'accept'
         return 'reject'
     release = model.resolve(op['project'], op['release'])
+    if op['op'] == 'prune':
+        model.prune(op['project'], release, op['generation'])
+        return release
     if op['op'] == 'train':
         return model.train(op['project'], release, [blob(s) for s in op['states']], result and result.get('sids'),
                            result and result.get('tag') and {k: v for k, v in result['tag'].items() if k != 'states'})
@@ -455,6 +483,19 @@ def perform(directory, op, source=None):
         number = None
     return {'release': str(generation.release.key), 'generation': number, 'trained': bool(tag.training),
             'states': [c05_view.sha(b) for b in loaded], 'lens': [len(b) for b in loaded]}
+
+
+def prune(root, model, op):
+    """Out-of-band operation of an operator: remove one generation directory of a release directly on disk (never through
+    forml).  ``model`` is the registry model *before* the operation (it knows the directory name of the release)."""
+    release = model.resolve(op['project'], op['release'])
+    shutil.rmtree(os.path.join(root, op['project'], release, str(op['generation'])))
+    return {'pruned': f"{op['project']}/{release}/{op['generation']}"}
+
+
+def pruned_prefix(model, op):
+    """Relative path prefix of what a prune operation removes."""
+    return os.path.join(op['project'], model.resolve(op['project'], op['release']), str(op['generation'])) + os.sep
 
 
 def crash_codes():
@@ -572,7 +613,7 @@ class History:
             source = files = None
             if op['op'] == 'publish':
                 source, files = build_package(self.srcdir, op)
-            crashing = self.crash and op['op'] != 'read' and (self.crash_ops is None or index in self.crash_ops)
+            crashing = self.crash and op['op'] in ('publish', 'train') and (self.crash_ops is None or index in self.crash_ops)
             if crashing and not self.check:
                 self.last = self.reader.read([self.root], verify=False)[0]  # the owner of the history verifies this state
             before_view, before_tree = self.last
@@ -587,9 +628,12 @@ class History:
                 self.settle(index, op, crashed, before_view, before_tree)
                 return
             try:
-                result = perform(self.directory(self.root, writer), op, source)
+                result = prune(self.root, self.model, op) if op['op'] == 'prune' else perform(self.directory(self.root, writer), op, source)
             except Exception as err:  # pylint: disable=broad-except
                 result = {'raised': f'{type(err).__name__}: {err}'[:300]}
+            if op['op'] == 'prune':  # what the operator removed is exempt from the append-only comparison of this step
+                gone = pruned_prefix(self.model, op)
+                before_tree = {k: v for k, v in before_tree.items() if not (k + os.sep).startswith(gone)}
             raw = self.ctx.counters.get('violations_raw', 0)
             if self.check:
                 self.judge(index, op, result, files, before_model)
@@ -637,17 +681,22 @@ class History:
         elif op['op'] == 'train' and 'raised' not in result:
             ctx.count('train_checked')
             release = self.model.resolve(op['project'], op['release'])
+            numbers = sorted(before_model.data[op['project']][release]['gens']) if release in before_model.data.get(op['project'], {}) else []
+            if numbers and numbers != list(range(1, len(numbers) + 1)):
+                ctx.count('train_on_pruned_listing_checked')  # max+1 differs from count+1 here
             if result['generation'] != expected or self.model.resolve(op['project'], result['release']) != release:
                 ctx.violation(self.key('train-generation-number-not-max-plus-one', op),
                               f"train {self.brief(op)} committed generation {result['release']}/{result['generation']}, the model expects "
                               f'{release}/{expected} (step {index})', self.witness(index))
+        elif op['op'] == 'prune':
+            ctx.count('prune_checked')
         elif op['op'] == 'read' and 'raised' not in result:
             ctx.count('read_checked')
             release = expected
             gens = self.model.data[op['project']][release]['gens']
-            number = op['generation'] or (len(gens) or None)
+            number = op['generation'] or max(gens, default=None)
             want = {'release': release, 'generation': number, 'trained': number is not None,
-                    'states': gens[number - 1]['blobs'] if number else [], 'lens': gens[number - 1]['lens'] if number else []}
+                    'states': gens[number]['blobs'] if number else [], 'lens': gens[number]['lens'] if number else []}
             got = dict(result, release=self.model.resolve(op['project'], result['release']))
             if got != want:
                 first = next(iter(diff(want, got)))
@@ -863,6 +912,8 @@ class History:
     def brief(op):
         if op['op'] == 'publish':
             return f"{op['project']}-{op['version']} ({op['kind']})"
+        if op['op'] == 'prune':
+            return f"{op['project']}/{op['release'] or 'latest'}/{op['generation']} (removed on disk)"
         states = f" states={[s['len'] for s in op['states']]}" if op['op'] == 'train' else ''
         return f"{op['project']}/{op['release'] or 'latest'}/{op['generation'] or 'latest'}{states}"
 
@@ -872,7 +923,7 @@ class History:
             return ('publish', op['project'], op['kind'], op.get('relation'), op['extra'], op['big'])
         if op['op'] == 'train':
             return ('train', op['project'], op['release'] is None, op['generation'], [s['len'] for s in op['states']])
-        return ('read', op['project'], op['release'] is None, op['generation'])
+        return (op['op'], op['project'], op['release'] is None, op['generation'])
 
 
 # ---------------------------------------------------------------- volatile registry (history part only)
@@ -896,9 +947,12 @@ def run_volatile(ctx, ops, label, scratch):
         prefix = 'volatile-release-alias-spelling-' if is_alias(op, before_model) else 'volatile-'
         raw = ctx.counters.get('violations_raw', 0)
         try:
-            result = perform(asset.Directory(registry), op, source)
+            result = prune(root, model, op) if op['op'] == 'prune' else perform(asset.Directory(registry), op, source)
         except Exception as err:  # pylint: disable=broad-except
             result = {'raised': f'{type(err).__name__}: {err}'[:300]}
+        if op['op'] == 'prune':  # the volatile registry keeps generations in its temporary directory: same out-of-band removal
+            gone = pruned_prefix(model, op)
+            before_tree = {k: v for k, v in before_tree.items() if not (k + os.sep).startswith(gone)}
         ctx.count('evaluations')
         ctx.count('volatile_steps_checked')
         if index > 0:
@@ -919,9 +973,9 @@ def run_volatile(ctx, ops, label, scratch):
                           f"volatile: train {History.brief(op)} committed generation {result['generation']}, expected {expected}", witness)
         if op['op'] == 'read' and 'raised' not in result:
             gens = model.data[op['project']][expected]['gens']
-            number = op['generation'] or (len(gens) or None)
+            number = op['generation'] or max(gens, default=None)
             want = {'release': expected, 'generation': number, 'trained': number is not None,
-                    'states': gens[number - 1]['blobs'] if number else [], 'lens': gens[number - 1]['lens'] if number else []}
+                    'states': gens[number]['blobs'] if number else [], 'lens': gens[number]['lens'] if number else []}
             if dict(result, release=model.resolve(op['project'], result['release'])) != want:
                 ctx.violation(prefix + 'read-differs', f'volatile: read {History.brief(op)} returned {result}, expected {want}', witness)
         tree = c05_view.tree(root)
@@ -982,7 +1036,7 @@ def run(ctx):
             accepted = op['op'] == 'publish' and sketch.accepts(op['project'], op['version'])
             if accepted:
                 sketch.publish(op['project'], op['version'], op['kind'], 'vproj', {})
-            if crash and op['op'] != 'read':
+            if crash and op['op'] in ('publish', 'train'):
                 nchunks = estimated_chunks(op) if accepted or op['op'] == 'train' else 1
                 for chunk in range(nchunks):
                     if ctx.mine(serial):
